@@ -1,6 +1,7 @@
 import CkbVerif.Driver.Util
 import CkbVerif.Model.MMR
 import CkbVerif.Model.Filter
+import CkbVerif.Model.LightServer
 
 /-! Line-protocol driver for C19 (see harness/hcore/src/c19.rs for the protocol).
 `ckbmodel C19 mmr` and `ckbmodel C19 filter`. -/
@@ -205,6 +206,9 @@ structure NSt where
   bad : List Nat := []
   /-- blocks the chain service rejected (and deleted) -/
   gone : List Nat := []
+  /-- `tdinfo`: the difficulty every block adds (permanent difficulty, no uncles): the total difficulty of
+  main-chain block n is `(n + 1) * d0` -/
+  d0 : Nat := 0
 
 /-- genesis ..= id along the parent links (fuel = block number + 1) -/
 def pathOf (parent : List (Nat × Nat)) : Nat → Nat → List Nat
@@ -300,32 +304,64 @@ def stepNode (s : NSt) (ts : List String) : NSt × String :=
     | some n => (s, rootStr "ext" (recreate s.mmr (n - 1)))
     | none => (s, "bad-op")
   | ["bp", last, ids] =>
-    -- `GetBlocksProofProcess::execute` + `reply_proof` (util/light-client-protocol-server), code as is
+    -- `GetBlocksProofProcess::execute` + `reply_proof` (Model/LightServer.lean `bpDecision`), code as is
     match parseNat? last, parseNatList? ids with
     | some last, some ids =>
-      if ids.isEmpty then (s, "banned")                                   -- "no block"
-      else if !(s.chain.contains last) then                               -- last_hash not on the main chain
-        let tip := s.chain.getLastD 0
+      let chain := if s.chain.isEmpty then [0] else s.chain
+      match LightServer.bpDecision (fun i => chain.contains i) (fun i => i % 10000 = 0) last ids with
+      | .banned => (s, "banned")
+      | .err => (s, "err")
+      | .tip =>
+        let tip := chain.getLastD 0
         let tipN := tip % 10000
         (s, if tipN = 0 then s!"tip {tip} root -" else
           match getRoot pmerge (recreate s.mmr (tipN - 1)) with
           | some (some r) => s!"tip {tip} root {r.render}"
           | _ => "err")
-      else if (ids ++ [last]).eraseDups.length ≠ ids.length + 1 then (s, "banned")  -- duplicate hash
-      else
-        let found := ids.filter fun i => s.chain.contains i
-        let missing := ids.length - found.length
+      | .reply ⟨found, missing⟩ =>
         let n := last % 10000
-        -- `chain_root_mmr(last_block.number() - 1)`: u64 subtraction, overflow checks are on in release
-        if n = 0 then (s, "panic")
+        if n = 0 then (s, s!"proof - root - headers=- missing={missing.length}")
         else
           let m := recreate s.mmr (n - 1)
           match getRoot pmerge m with
           | some (some root) =>
-            if found.isEmpty then (s, s!"proof - root {root.render} headers=- missing={missing}")
+            if found.isEmpty then (s, s!"proof - root {root.render} headers=- missing={missing.length}")
             else
               match (genProof pmerge m (found.map fun i => leafIndexToPos (i % 10000))).bind allSome with
-              | some p => (s, s!"proof {renderList p} root {root.render} headers={showNatList found} missing={missing}")
+              | some p => (s, s!"proof {renderList p} root {root.render} headers={showNatList found} missing={missing.length}")
+              | none => (s, "err")
+          | _ => (s, "err")
+    | _, _ => (s, "bad-op")
+  | ["tp", last, codes] =>
+    -- `GetTransactionsProofProcess::execute` + `reply_proof` (Model/LightServer.lean `tpDecision`). Transaction codes:
+    -- k < 1000 = transaction k of the genesis block; 1000 + n = the cellbase of height n (one transaction, the same on every
+    -- branch; COLUMN_TRANSACTION_INFO holds it for the attached block of that height); ≥ 1000000 = unknown
+    match parseNat? last, parseNatList? codes with
+    | some last, some codes =>
+      let chain := if s.chain.isEmpty then [0] else s.chain
+      let txInfo : Nat → Option (Nat × Nat) := fun c =>
+        if c < 1000 then some (0, c)
+        else if c < 1000000 then (chain[c - 1000]?).map fun b => (b, 0)
+        else none
+      match LightServer.tpDecision (fun i => chain.contains i) (fun i => i % 10000 = 0) txInfo last codes with
+      | .banned => (s, "banned")
+      | .err => (s, "err")
+      | .tip => (s, "tip")
+      | .reply ⟨blocks, missing⟩ =>
+        let n := last % 10000
+        -- the real code walks a HashMap: the order of the filtered blocks is unspecified; both sides print them by number
+        let sorted := (blocks.map (fun b => b.1 % 10000)).foldr insertSorted []
+        let bl := sorted.filterMap fun k => blocks.find? fun b => b.1 % 10000 = k
+        let bstr := if bl.isEmpty then "-" else "/".intercalate (bl.map fun b => s!"{b.1}:{showNatList (b.2.map (·.2))}")
+        if n = 0 then (s, s!"proof - root - blocks={bstr} missing={missing.length}")
+        else
+          let m := recreate s.mmr (n - 1)
+          match getRoot pmerge m with
+          | some (some root) =>
+            if blocks.isEmpty then (s, s!"proof - root {root.render} blocks=- missing={missing.length}")
+            else
+              match (genProof pmerge m (blocks.map fun b => leafIndexToPos (b.1 % 10000))).bind allSome with
+              | some p => (s, s!"proof {renderList p} root {root.render} blocks={bstr} missing={missing.length}")
               | none => (s, "err")
           | _ => (s, "err")
     | _, _ => (s, "bad-op")
@@ -359,27 +395,41 @@ def stepNode (s : NSt) (ts : List String) : NSt × String :=
         | .invalidChainRoot => "InvalidChainRoot"
         | .invalidExtraHash => "InvalidExtraHash"
         | .internalMMR => "other:internal")
-  | ["lsp", last, _, _, _, _, _, kind, numbers] =>
-    -- the sampling of GetLastStateProof is not modelled: the harness reports which block numbers the
-    -- real reply carried; the model says what the proof and the roots for exactly those must be
-    if kind ≠ "proof" then (s, kind) else
-    match parseNat? last, parseNatList? numbers with
-    | some last, some numbers =>
-      let n := last % 10000
-      let m := recreate s.mmr (n - 1)
-      let rootOf (k : Nat) : String :=
-        if k = 0 then "-" else
-        match getRoot pmerge (recreate s.mmr (k - 1)) with
-        | some (some r) => r.render
-        | _ => "?"
-      let roots := if numbers.isEmpty then "-" else ";".intercalate (numbers.map rootOf)
-      let proofStr :=
-        if numbers.isEmpty then some "-" else
-        ((genProof pmerge m (numbers.map leafIndexToPos)).bind allSome).map renderList
-      match proofStr, getRoot pmerge m with
-      | some p, some (some root) => (s, s!"proof {p} root {root.render} roots={roots}")
-      | _, _ => (s, "err")
-    | _, _ => (s, "bad-op")
+  | ["tdinfo", d] =>
+    match parseNat? d with
+    | some d => ({ s with d0 := d }, "ok")
+    | none => (s, "bad-op")
+  | ["lsp", last, start, startNum, lastN, boundary, diffs, _, _] =>
+    -- `GetLastStateProofProcess::execute` (Model/LightServer.lean `lspNumbers`): the sampling is computed by the
+    -- model; the two trailing tokens (what the real reply was when the line was recorded) are not read
+    match parseNat? last, parseNat? start, parseNat? startNum, parseNat? lastN, parseNat? boundary, parseNatList? diffs with
+    | some last, some start, some startNum, some lastN, some boundary, some diffs =>
+      let chain := if s.chain.isEmpty then [0] else s.chain
+      let td : LightServer.TD := fun n => if n < chain.length then some ((n + 1) * s.d0) else none
+      let req : LightServer.LspReq := {
+        lastOnMain := chain.contains last, last := last % 10000, start := startNum,
+        startMatches := chain[startNum]? == some start, lastN := lastN, boundary := boundary, difficulties := diffs }
+      match LightServer.lspNumbers td req with
+      | .banned => (s, "banned")
+      | .err => (s, "err")
+      | .tip => (s, "tip")
+      | .reply numbers =>
+        let n := last % 10000
+        if n = 0 then (s, "genesis") else
+        let m := recreate s.mmr (n - 1)
+        let rootOf (k : Nat) : String :=
+          if k = 0 then "-" else
+          match getRoot pmerge (recreate s.mmr (k - 1)) with
+          | some (some r) => r.render
+          | _ => "?"
+        let roots := if numbers.isEmpty then "-" else ";".intercalate (numbers.map rootOf)
+        let proofStr :=
+          if numbers.isEmpty then some "-" else
+          ((genProof pmerge m (numbers.map leafIndexToPos)).bind allSome).map renderList
+        match proofStr, getRoot pmerge m with
+        | some p, some (some root) => (s, s!"proof {p} root {root.render} roots={roots} numbers={showNatList numbers}")
+        | _, _ => (s, "err")
+    | _, _, _, _, _, _ => (s, "bad-op")
   | ["proof", n, idxs] =>
     match parseNat? n, parseNatList? idxs with
     | some n, some idxs =>
